@@ -55,7 +55,7 @@ ELEMENTWISE = [{'op': 'map', 'f': 'inc'}, {'op': 'map', 'f': 'dbl'}, {'op': 'fil
 STRUCTURAL = [{'op': 'aggregateByKey'}, {'op': 'foldByKey'}, {'op': 'countByKey'}, {'op': 'cogroup_self'}, {'op': 'coalesce', 'n': 2}, {'op': 'coalesce', 'n': 1}, {'op': 'repartition', 'n': 3}, {'op': 'sortBy'}, {'op': 'distinct'},
               {'op': 'reduceByKey'}, {'op': 'groupByKey'}, {'op': 'zipWithIndex'}, {'op': 'glom'}, {'op': 'union_self'},
               {'op': 'sampleByKey', 'seed': 5}]
-ACTIONS = ['collect', 'collect', 'count', 'unpersist', 'reduce', 'reduceMax', 'fold', 'foldMax', 'take3', 'first', 'reduce', 'aggregate', 'takeSample', 'collect']
+ACTIONS = ['collect', 'collect', 'count', 'collectInner', 'collectInner', 'unpersist', 'reduce', 'reduceMax', 'fold', 'foldMax', 'take3', 'first', 'reduce', 'aggregate', 'takeSample', 'collect']
 
 BACKENDS = ['thread', 'thread+datapickle', 'mp+cloudpickle+datapickle', 'mp+cloudpickle', 'mp+dill', 'ppe+cloudpickle', 'ppe+dill', 'reversed', 'shuffled']
 
@@ -109,6 +109,9 @@ def build(sc, pipe, table, handles=None):
 def act(r, a, table, handles=()):
     if a == 'collect':
         return r.collect()
+    if a == 'collectInner':
+        # an action on the FIRST persisted step of the lineage (not on the final dataset): what it cached must still be its own
+        return handles[0].collect() if handles else None
     if a == 'unpersist':
         # drop every persisted step of the lineage; the entries the workers merged back must go as well
         for h in handles:
@@ -317,7 +320,10 @@ class C03(Prop):
             if r < .3:
                 ops.append(dict(rng.choice(ELEMENTWISE)))
             elif r < .5:
-                ops.append({'op': 'sample', 'repl': rng.random() < .25, 'fraction': rng.choice([.3, .5, .8, 1.0]), 'seed': rng.randint(0, 30)})
+                if rng.random() < .06 and len(data) <= 4:
+                    ops.append({'op': 'sample', 'repl': True, 'fraction': rng.choice([510.0, 600.0]), 'seed': rng.randint(0, 30)})
+                else:
+                    ops.append({'op': 'sample', 'repl': rng.random() < .25, 'fraction': rng.choice([.3, .5, .8, 1.0]), 'seed': rng.randint(0, 30)})
             elif r < .75:
                 ops.append({'op': 'persist'})
             elif not small:
@@ -368,6 +374,16 @@ class C03(Prop):
                 for first in (0, 1):
                     out.append({'kind': 'sched', 'pipe': base, 'order': [first, 1 - first], 'preempt': [[a, 1 - first], [b, first]], 'job': 0})
                     out.append({'kind': 'sched', 'pipe': samp, 'order': [first, 1 - first], 'preempt': [[a, 1 - first], [b, first]], 'job': 0})
+        two_level = {'n': 3, 'data': [4, 1, 6, 2, 9, 3], 'ops': [{'op': 'map', 'f': 'inc'}, {'op': 'persist'}, {'op': 'map', 'f': 'dbl'}, {'op': 'persist'}],
+                     'actions': ['collectInner', 'collect', 'collectInner', 'collect']}
+        big_poisson = {'n': 2, 'data': [1, 2, 3], 'ops': [{'op': 'sample', 'repl': True, 'fraction': 600.0, 'seed': 5}, {'op': 'persist'}],
+                       'actions': ['count', 'collect']}
+        for b in BACKENDS:
+            out.append({'kind': 'backend', 'pipe': two_level, 'backend': b, 'seed': 1})
+            out.append({'kind': 'backend', 'pipe': big_poisson, 'backend': b, 'seed': 1})
+        for order in ([0, 1, 2], [2, 1, 0]):
+            out.append({'kind': 'sched', 'pipe': two_level, 'order': order, 'preempt': [], 'job': 0})
+            out.append({'kind': 'sched', 'pipe': two_level, 'order': order, 'preempt': [[40, 1], [90, 0]], 'job': 1})
         twice = {'n': 3, 'data': [3, 9, 1, 7, 5, 2], 'ops': [{'op': 'map', 'f': 'inc'}],
                  'actions': ['reduce', 'reduceMax', 'reduce', 'foldMax', 'fold', 'foldMax']}
         for b in BACKENDS:
